@@ -89,6 +89,17 @@ def run(tier):
     cov["polygon_record_stats"] = sst
     cov["samples"].append(json.loads(slines[0]))
 
+    # built-in grids: insertion and routing must agree on the pixel of an end point whatever the float noise (RouteRealTrace)
+    p5 = vlib.run([drv, "route-real", "-seed", str(sd), "-n", "4000" if tier == "quick" else "100000"], timeout=3600)
+    if p5.returncode != 0:
+        raise Broken("route-real failed: " + p5.stderr[-2000:])
+    rlines = [x for x in p5.stdout.splitlines() if x.startswith("{")]
+
+    def on_fail5(inv, idx, line):
+        v.violation("built-in grid: %s fails: %s" % (inv, line[:400]), {"kind": "route-real-record", "invariant": inv, "record": json.loads(line)}, name="real")
+    rstates, rn = vlib.validate_records("RouteRealTrace", "RouteRealTrace.cfg", "routereal_trace.ndjson", rlines, on_fail=on_fail5, workers=8)
+    cov["real_grid_endpoint_records"] = rn
+
     rc = v.finish()
     cov.update({
         "states": r.distinct + r0.distinct + tstates + sres["states"] + tres["states"], "transitions": r.generated + r0.generated + sres["transitions"],
